@@ -244,7 +244,10 @@ pub fn expect_op(op: &Op, mark: &str, result: &OpResult, frame_max: usize, consu
         Op::ListenReturns | Op::ListenConfirms | Op::DropReturns | Op::DropConfirms | Op::ReadReturns | Op::ReadConfirms | Op::ReadOld | Op::Yield | Op::Gate(_) => {}
         Op::AckAll => v.push(ExpFrame::Method(AMQPClass::Basic(B::Ack(basic::Ack { delivery_tag: 0, multiple: true })))),
         Op::NackAll { requeue } => v.push(ExpFrame::Method(AMQPClass::Basic(B::Nack(basic::Nack { delivery_tag: 0, multiple: true, requeue: *requeue })))),
-        Op::ForeignAck { .. } => {}
+        Op::ForeignAck { .. } | Op::ForeignAckViaConsumer { .. } => {}
+        Op::GetKeep { queue } => {
+            v.push(ExpFrame::Method(AMQPClass::Basic(B::Get(basic::Get { ticket: 0, queue: queue.clone(), no_ack: false }))));
+        }
         Op::CloseChannel => {
             if *result != OpResult::Skipped {
                 v.push(channel_close_frame());
